@@ -24,6 +24,7 @@ import (
 	"os"
 	"path/filepath"
 	"reflect"
+	"sort"
 	"runtime"
 	"strconv"
 	"strings"
@@ -1698,7 +1699,15 @@ func (t *Transaction) AssertedDatasets() []string {
 func (s *Store) ExecuteTransaction(transaction *Transaction) error {
 	datasets := make(map[string]*Dataset)
 
+	// lock the datasets in a fixed (sorted) order. map iteration order would let two
+	// transactions over the same datasets take the locks in opposite orders and deadlock.
+	datasetNames := make([]string, 0, len(transaction.DatasetEntities))
 	for k := range transaction.DatasetEntities {
+		datasetNames = append(datasetNames, k)
+	}
+	sort.Strings(datasetNames)
+
+	for _, k := range datasetNames {
 		dataset, ok := s.datasets.Load(k)
 		if !ok {
 			return errors.New("no dataset " + k)
@@ -1717,7 +1726,8 @@ func (s *Store) ExecuteTransaction(transaction *Transaction) error {
 
 	updateCountsPerDataset := make(map[string]int64)
 
-	for k, ds := range datasets {
+	for _, k := range datasetNames {
+		ds := datasets[k]
 		entities := transaction.DatasetEntities[k]
 		newItems, err := ds.StoreEntitiesWithTransaction(entities, txnTime, txn)
 		if err != nil {
